@@ -651,6 +651,72 @@ WIRING = ["ing.ResolveRoute = state.resolveIngress", "ing.AllowRequestFor = stat
           "ing.LimitsFor = state.limitsFor", "ing.TargetsFor = state.targetsFor"]
 
 
+def secrets_only_reloads(ctx, info):
+    """reloads (the real reloadConfig on a running state) that edit nothing but the `secrets { }` block a route's `secret_ref`s point into:
+    a version retired by a valid_until, a version's value rotated, the edit taken back.  Routes, tokens and limits are byte-identical
+    across the files.  Each request is judged by the secrets block in force when it arrives: signed with a secret valid at its
+    timestamp -> 202 and enqueued once, otherwise 401 and nothing enqueued."""
+    ts = 1_700_000_000
+    t = ts * 10 ** 9
+    SEC_ = 10 ** 9
+
+    def text(vers):
+        return (G.PRELUDE + G.secrets_block(vers) + G.route_block("/hooks", G.hmac_block(secret_refs=[v["id"] for v in vers], tolerance="5m"))
+                + G.route_block("/other"))
+
+    def pool(k1_until=None, k2="raw:k2"):
+        return [{"id": "S1", "value": "raw:k1", "valid_from": 1_600_000_000, "valid_until": k1_until},
+                {"id": "S2", "value": k2, "valid_from": ts - 1000, "valid_until": None}]
+    pools = [pool(), pool(k1_until=ts - 500), pool(k2="raw:k2b"), pool(k1_until=ts - 500, k2="raw:k2b")]
+    names = ("X-Signature", "X-Timestamp", "X-Nonce")
+    scen = []
+    orders = [[0, 1, 0, 2, 3, 0], [1, 0, 1], [0, 2, 0], [0, 0, 1, 1, 3, 2]]
+    for oi, order in enumerate(orders):
+        steps, meta = [], []
+        now = t
+        n = 0
+        for ci in order:
+            steps.append({"op": "load", "cfg": ci})
+            meta.append(None)
+            for secret in (b"k1", b"k2", b"k2b"):
+                n += 1
+                now += SEC_
+                body = b'{"n":%d}' % n
+                sig = G.sign(secret, str(ts), "POST", "/hooks", body)
+                hs = [(names[0], sig), (names[1], str(ts)), (names[2], "so-%d-%d" % (oi, n))]
+                steps.append({"op": "req", "now": now, "wire": G.b64(G.wire("POST", "/hooks", hs, body))})
+                valid = any(v["value"] == "raw:" + secret.decode() and v["valid_from"] <= ts and (v["valid_until"] is None or ts < v["valid_until"])
+                            for v in pools[ci])
+                meta.append({"cfg": ci, "secret": secret.decode(), "expect": 202 if valid else 401})
+        scen.append({"name": "secrets-only-%d" % oi, "configs": [text(p_) for p_ in pools], "steps": steps, "_meta": meta})
+    rc, out, err = C.harness_run(info["hbin"], ["auth-run"], {"dir": os.path.join(ctx.scratch, "c08reload"),
+                                                            "scenarios": [{k: v for k, v in s_.items() if not k.startswith("_")} for s_ in scen]})
+    if rc != 0:
+        raise RuntimeError("auth-run (C08 secrets-only reloads) failed: " + err[-1500:])
+    stats = {"scenarios": len(scen), "reloads": 0, "requests": 0, "202": 0, "401": 0}
+    for s_, im in zip(scen, json.loads(out)):
+        if im.get("err"):
+            raise RuntimeError("scenario %s: %s" % (s_["name"], im["err"]))
+        for si, (st, io, m) in enumerate(zip(s_["steps"], im["steps"], s_["_meta"])):
+            if m is None:
+                stats["reloads"] += 1
+                if not io["load_ok"]:
+                    C.report(ctx, "secrets-only-reload:refused", "a reload that edits only the secrets block was refused: %s" % io.get("load_err"),
+                             {"kind": "history", "case": {"configs": s_["configs"], "steps": s_["steps"][:si + 1]}})
+                continue
+            stats["requests"] += 1
+            delta = io["total_after"] - io["total_before"]
+            stats[str(io["status"])] = stats.get(str(io["status"]), 0) + 1
+            if io["status"] != m["expect"] or delta != (1 if m["expect"] == 202 else 0):
+                C.report(ctx, "secrets-only-reload:%s" % ("accepted-retired" if m["expect"] == 401 else "rejected-valid"),
+                         "after a reload that edited only the secrets block (file %d in force), a request signed with secret %r at %d was answered %d with queue "
+                         "delta %d; under the secrets block in force it is %s" % (m["cfg"], m["secret"], ts, io["status"], delta,
+                                                                                  "valid: 202, enqueued once" if m["expect"] == 202 else "not valid at that instant: 401, nothing enqueued"),
+                         {"kind": "history", "case": {"configs": s_["configs"], "steps": s_["steps"][:si + 1]}, "observed": {"status": io["status"], "queue_delta": delta},
+                          "expected": m, "how_to_replay": "./check C08 --replay <this file>"})
+    return stats
+
+
 def main(ctx, replay):
     rng = random.Random(ctx.seed)
     info = C.prologue(ctx)
@@ -950,6 +1016,8 @@ def main(ctx, replay):
     dist["compile_cases"] = cc
     dist["library_twin_values"] = len(vals)
     dist["crypto_vectors"] = len(shas) + len(hm)
+    dist["secrets_only_reloads"] = secrets_only_reloads(ctx, info)
+    evaluations += dist["secrets_only_reloads"]["requests"]
 
     cov.update({
         "evaluations": evaluations,
